@@ -95,7 +95,7 @@ pub fn run_case(c: &Case, g: &mut G) -> Option<(String, String)> {
         if inflate(c.cenc, &enc).ok() != Some(o.content()) {
             return Ok(Some(("C08/transfer-encoding".into(), "the transfer-encoded source does not inflate to the object".into())));
         }
-        let toi = match s.add_object(0, desc) {
+        let toi = match add_tallied(&mut s, 0, desc, &sess.oti) {
             Ok(t) => t,
             Err(_) => {
                 g.refused += 1;
